@@ -605,8 +605,11 @@ _dispatch_event_merge_fd(dispatch_muxnote_t dmn, uint32_t events)
 		}
 	}
 
-	// SR-9033: EPOLLHUP is an unmaskable event which we must respond to
-	if (events & EPOLLHUP) {
+	// SR-9033: EPOLLHUP is an unmaskable event which we must respond to.
+	// So is EPOLLERR: a pipe whose buffer is full and whose read end has been
+	// closed reports EPOLLERR without EPOLLHUP or EPOLLOUT; ignoring it would
+	// re-arm the descriptor and spin without ever telling the writer.
+	if (events & (EPOLLHUP | EPOLLERR)) {
 		LIST_FOREACH_SAFE(dul, &dmn->dmn_readers_head, du_link, dul_next) {
 			dispatch_unote_t du = _dispatch_unote_linkage_get_unote(dul);
 			_dispatch_event_merge_hangup(du);
